@@ -1,14 +1,14 @@
 """C09: register values are scaled and decoded exactly as the register defines."""
 from lib import apirun
 
-THEOREMS = ["C09_readers", "C09_number", "C09_enum", "C09_fieldlist", "C09_wrapped", "C09_all_registers"]
+THEOREMS = ["C09_readers", "C09_number", "C09_enum", "C09_fieldlist", "C09_wrapped", "C09_all_registers", "C09_number_f64", "C09_number_f64_small"]
 
 
 def run(res, args):
-    res.assumptions = ["float64 rounding of float64(raw)/float64(factor)+offset is not modelled: the model computes the exact rational and results are compared within 1e-9*max(1,|q|)",
+    res.assumptions = ["the float64 result of the number reader is modelled in Flocq binary64 (Api/Float.v) and compared bit for bit with the implementation's result (printed with 17 significant digits and parsed back by OCaml's float_of_string); amd64 Go does not fuse the division and the addition",
                        "strings.TrimSpace is modelled on UTF-8 bytes (all Unicode White_Space code points Go's unicode.IsSpace accepts)"]
     apirun.standard(res, args, "C09", "C09", THEOREMS,
                     "Classes for C09: every register of every distinct product list x raw values (boundary and random 1/2/4/8-byte numbers, "
                     "unsupported widths, texts with NUL padding and ASCII/Unicode spaces and invalid UTF-8, every enum key and undefined codes "
                     "incl. 256+key and >= 2^63, field-list bit patterns incl. bits >= 32) and device/transport errors per register.",
-                    partial=["IEEE-754 rounding of the number conversion is not modelled"])
+                    partial=[])
